@@ -127,7 +127,11 @@ class RefAnalysis(Analysis):
                 return st
             o = "b:%s" % v
             st = sset(st, "a:" + v, o)
-        n = sget(st, "w:" + o, 0) + delta
+        cur = sget(st, "w:" + o, 0)
+        if delta < 0 and cur == 0 and o.startswith("g:") and not sget(st, "H:" + o) and node is not None:
+            # a reference borrowed from a field is given away
+            st = sset(st, "P:" + o, node.where)
+        n = cur + delta
         n = max(0, min(2, n))
         return sset(st, "w:" + o, n if n else None)
 
@@ -170,6 +174,22 @@ class RefAnalysis(Analysis):
                 robj = "b:%s" % r
                 st = sset(st, "a:" + r, robj)
             st = sset(st, "a:" + v, robj)
+        else:
+            # borrowed from a field / slot of something else: remember where
+            # from, so that a release through the local can be matched with
+            # the store that takes the reference out of that place
+            r0 = strip(rhs) if rhs is not None else None
+            if r0 is not None and r0.k in ("MemberExpr", "ArraySubscriptExpr") and path(r0) is not None:
+                o = "g:%s@%d" % (v, node.id)
+                # a previous iteration's object of the same site: rename it
+                if any(k[2:] == o or val == o for k, val in st if k[:2] in ("a:", "w:", "G:", "H:", "P:", "t:")):
+                    o1 = o + "'"
+                    st = frozenset((k, val) for k, val in st
+                                   if not (k[2:] == o1 or (k.startswith("a:") and val == o1)))
+                    st = frozenset(((k[:2] + o1) if (k[:2] in ("w:", "G:", "H:", "P:", "t:") and k[2:] == o) else k,
+                                    o1 if (k.startswith("a:") and val == o) else val) for k, val in st)
+                st = sset(st, "a:" + v, o)
+                st = sset(st, "G:" + o, path(r0))
         return st
 
     def _walk(self, node, st, e):
@@ -189,6 +209,13 @@ class RefAnalysis(Analysis):
             v = self._var(e.kids[0])
             if v is not None:
                 return self._assign_var(node, st, v, e.kids[1])
+            lp = path(e.kids[0])
+            if lp is not None:
+                for kk, val in list(st):
+                    if kk.startswith("G:") and val == lp:
+                        o2 = kk[2:]
+                        st = sset(st, "H:" + o2, 1)
+                        st = sdel(st, "P:" + o2)
             # store into a non-local lvalue transfers ownership of the rhs var
             r = self._var(e.kids[1])
             if r is not None and l0 is not None and l0.k in (
@@ -253,13 +280,13 @@ class RefAnalysis(Analysis):
                                         "Py_DECREF (only the X form tolerates "
                                         "NULL): crash" % v)
                         if not (fl == 0):
-                            st = self._own(st, v, -1)
+                            st = self._own(st, v, -1, node)
                 elif c[1] in STEALS:
                     i = STEALS[c[1]]
                     if i < len(args):
                         v = self._var(args[i])
                         if v is not None:
-                            st = self._own(st, v, -1)
+                            st = self._own(st, v, -1, node)
                 elif c[1] == "Py_BuildValue" and args:
                     # "N" format units steal the reference of their argument
                     f0 = strip(args[0])
@@ -347,6 +374,17 @@ class RefAnalysis(Analysis):
                 rval = self.flag_value_of(n.e, st2) if n.e is not None else None
                 self.out_returns.append((rval, frozenset(k[2:] for k, _ in st2 if k.startswith("O:"))))
                 robj = self._obj(st2, rv) if rv is not None else None
+                for k, where in st2:
+                    if k.startswith("P:"):
+                        o = k[2:]
+                        src = sget(st2, "G:" + o)
+                        self.report("LOCAL-REF", n, st, "%s released but still referenced by %s" % (
+                            o[2:].split("@")[0], src),
+                            "%s was loaded from %s (a borrowed reference), is "
+                            "released at %s, and %s is never overwritten on "
+                            "this path: the container keeps a pointer whose "
+                            "reference has been given away (use after free "
+                            "once the other owners go)" % (o[2:].split("@")[0], src, where, src))
                 for k, cnt in st2:
                     if not k.startswith("w:"):
                         continue
